@@ -142,6 +142,14 @@ class A64(Machine):
 
     def step(self, op, ops):
         b = self.b
+        if op in ("and", "uxtb") and getattr(self, "narrow_args", None):
+            # masking an 8-bit argument whose upper register bits are unspecified: `and wD, wN, #255` / `uxtb wD, wN`
+            mm = re.match(r"^[xw](\d+)$", ops[1].lower())
+            src = "x" + mm.group(1) if mm else None
+            na = self.narrow_args.get(src) if src else None
+            if na and self.regs.get(src) is na[0] and (op == "uxtb" or (len(ops) == 3 and is_imm(ops[2]) and imm(ops[2]) == 255)):
+                self.wr(ops[0], b.const(self.width_of(ops[0]), na[1] & 255))
+                return
         if op in ("eor", "and", "orr", "bic", "orn", "eon", "ands", "bics"):
             w = self.width_of(ops[0])
             x = self.rd(ops[1])
@@ -664,7 +672,8 @@ def runs(repo, name):
     a0, a1 = ("x0", "x1") if cls is A64 else ("r0", "r1")
 
     def make(k, cut):
-        return cls(items, tables, "ascon_permute", {a0: ("ptr", "state", 0), a1: ("int", k)},
+        # AAPCS64 leaves the bits above a uint8_t argument unspecified: the callee must mask (x86-64/ARM32/RISC-V callers extend)
+        return cls(items, tables, "ascon_permute", {a0: ("ptr", "state", 0), a1: (("arg8", k) if cls is A64 else ("int", k))},
                    {"state": {"size": 40, "symbolic": True}}, cut=cut, **kw)
     verif = os.path.dirname(os.path.dirname(os.path.abspath(__file__)))
     return kern_runs(name, layout, make, lambda lab: lab.startswith(".L"), items, "ascon_permute",
